@@ -189,6 +189,10 @@ func (x *explorer) simplify(t *Term, st map[int]Val, depth int) *Term {
 		}
 	case "index":
 		b, i := t.Args[0], t.Args[1]
+		if i.Op == "rk" && i.Args[0].Key() == b.Key() {
+			// the element at the current key of a range over the same collection
+			return &Term{Op: "re", Args: []*Term{b}, Pos: t.Pos}
+		}
 		if b.Op == "list" {
 			if k, ok := intConst(i); ok && k >= 0 && int(k) < len(b.Args) {
 				return b.Args[k]
